@@ -192,6 +192,11 @@ def _install_mean_hook(sym, c, fn, r, rank):
         body = strip(cl["body"])
         while body.get("k") == "blk" and not body["b"]["stmts"]:
             body = strip(body["b"]["tail"])
+        if body.get("k") == "if" and strip(body["c"]).get("k") == "letx" and body["el"] is not None:
+            # `if let Data::<rank>(d) = &t.data { d[i].. } else { panic }` read as the two-armed match it is
+            cx = strip(body["c"])
+            body = {"k": "match", "scrut": cx["init"], "arms": [{"pat": cx["pat"], "guard": None, "body": body["th"]},
+                                                                {"pat": {"k": "wild"}, "guard": None, "body": body["el"]}]}
         if body.get("k") != "match":
             raise ValueError("mean: closure is not a match on the other tensor's data")
         live = [a for a in body["arms"] if e4.outcomes(c, a["body"], lambda x: False)]
@@ -340,7 +345,8 @@ def linear_algebra(ctx):
     ctx.check("R15.3", "dot", ok, "dot-form-not-sum_j-M_ij*x_j", where, detail, "could not establish dot_i = sum_j M_ij*x_j " + detail)
     ctx.check("R15.3", "dot-shape", okshape, "dot-shape", where, "shape = Single(number of rows)")
     # ---- transpose: t[j][i] = d[i][j] for every i < rows, j < cols; t allocated cols x rows (index or enumerate loops)
-    fn = ctx.fn(T + "transpose")
+    from ..hir import matchified
+    fn = matchified(ctx.fn(T + "transpose"))
     where = c.loc(fn)
     from .common import index_copy
     ok, detail, okal = False, "", False
